@@ -110,14 +110,40 @@ def clause_c(facts, rep):
     # split points
     for f in facts.functions:
         if f.qn == NS + 'U64toa':
+            # the dispatch is evaluated (sv/minterp.py) at every digit-count boundary: the value must be handed on as an
+            # exact decomposition val = hi * 10^8 + lo with both groups below 10^8, or whole when it has <= 8 / >= 17 digits
             rep.fn(f)
-            consts = sorted(set(cval(e['r']) for bid, i, st, e in f.walk()
-                                if e.get('k') == 'bin' and e['op'] == '<' and cval(e['r']) is not None))
-            rep.check(consts == [10 ** 8, 10 ** 16], 'E5.split', f.qn, 'digit-count split points %s' % consts, f.loc,
-                      'must be 10^8 and 10^16', facts.config)
-            divs = sorted(set(cval(e['r']) for bid, i, st, e in f.walk()
-                              if e.get('k') == 'bin' and e['op'] in ('/', '%') and cval(e['r']) is not None))
-            rep.check(divs == [10 ** 8], 'E5.split', f.qn, 'group divisor %s' % divs, f.loc, 'must be 10^8', facts.config)
+            from ..minterp import Interp, Unsupported, UndefinedBehaviour
+            bad = None
+            pts = sorted(set([0, 1, 9, 10, 99999999, 10 ** 8, 10 ** 8 + 1, 10 ** 15, 10 ** 16 - 1, 10 ** 16, 10 ** 16 + 1, 10 ** 17, 2 ** 63, 10 ** 19, 2 ** 64 - 1] +
+                             [10 ** k + d for k in range(1, 20) for d in (-1, 0, 1) if 0 <= 10 ** k + d < 2 ** 64]))
+            try:
+                for val in pts:
+                    calls = []
+
+                    def hook(e, args, env, members):
+                        if e.get('cname') in ('Utoa_1_8', 'Utoa_8', 'Utoa_16', 'U64toa_17_20', 'UtoaSSE'):
+                            calls.append((e.get('cname'), args))
+                            return 7        # an opaque output position
+                        return None
+                    Interp(f, facts, call_hook=hook).run({f.params[0]['id']: 4096, f.params[1]['id']: val}, {})
+                    names = [c[0] for c in calls]
+                    ok = False
+                    if names == ['Utoa_1_8']:
+                        ok = calls[0][1][1] == val and val < 10 ** 8
+                    elif sorted(names) == ['Utoa_1_8', 'Utoa_8']:
+                        hi = [c for c in calls if c[0] == 'Utoa_1_8'][0][1][1]
+                        lo = [c for c in calls if c[0] == 'Utoa_8'][0][1][0]
+                        ok = hi * 10 ** 8 + lo == val and 1 <= hi < 10 ** 8 and lo < 10 ** 8
+                    elif names == ['U64toa_17_20']:
+                        ok = calls[0][1][1] == val and val >= 10 ** 16
+                    if not ok:
+                        bad = 'val = %d -> %s' % (val, calls)
+                        break
+            except (Unsupported, UndefinedBehaviour) as ex:
+                raise AnalysisBroken('C08.c: U64toa dispatch not evaluable: %s' % ex)
+            rep.check(bad is None, 'E5.split', f.qn, 'dispatch hands on an exact group decomposition at all %d digit-count boundaries' % len(pts), f.loc,
+                      (bad or '') + ' - groups must satisfy val = hi*10^8 + lo, hi in [1,10^8), lo < 10^8 (or the whole value for <= 8 / >= 17 digits)', facts.config)
         if f.qn == NS + 'U64toa_17_20' or f.qn == NS + 'x86_common::Utoa_16':
             rep.fn(f)
             divs = sorted(set(cval(e['r']) for bid, i, st, e in f.walk()
